@@ -10,55 +10,74 @@ Definition getQ (l : list Q) (i : nat) : Q := nth i l 0.
 Definition sumQ (l : list Q) : Q := fold_right (fun a b => Qred (a + b)) 0 l.
 
 (* ------------------------------------------------------------------ rouwenhorst *)
-Definition scale (c : Q) (r : list Q) : list Q := map (fun x => Qred (c * x)) r.
-Fixpoint vadd (a b : list Q) : list Q :=
+(* Written once over the arithmetic signature Num: the NumQ instance is the one the theorems are
+   about, the NumF instance (binary64, same operations in the order NumPy performs them:
+   theta = ((p1 + p2) + p3) + p4 entrywise, then /2 on interior rows) is compared bit-exactly. *)
+Section Rouwenhorst.
+Context {T : Type} `{Num T}.
+
+Definition ntwo : T := nadd none_ none_.
+Fixpoint of_nat (n : nat) : T := match n with O => nzero | S n' => nadd (of_nat n') none_ end.
+
+Definition scale (c : T) (r : list T) : list T := map (fun x => nmul c x) r.
+Fixpoint vadd (a b : list T) : list T :=
   match a, b with
-  | x :: a', y :: b' => Qred (x + y) :: vadd a' b'
+  | x :: a', y :: b' => nadd x y :: vadd a' b'
   | _, _ => []
   end.
-(* row i of p1 + p2 (built from row i of the smaller matrix):  p*[r,0] + (1-p)*[0,r] *)
-Definition row_up (p : Q) (r : list Q) : list Q := vadd (scale p r ++ [0]) (0 :: scale (1 - p) r).
-(* row i of p3 + p4 (built from row i-1 of the smaller matrix):  (1-q)*[r,0] + q*[0,r] *)
-Definition row_dn (q : Q) (r : list Q) : list Q := vadd (scale (1 - q) r ++ [0]) (0 :: scale q r).
-Definition halve (r : list Q) : list Q := map (fun x => Qred (x / 2)) r.
+Definition zrow (n : nat) : list T := repeat nzero n.
+(* contributions to row i of theta from row r = m_i (blocks p1, p2) and from row r = m_{i-1} (p3, p4) *)
+Definition blk1 (p : T) (r : list T) : list T := scale p r ++ [nzero].
+Definition blk2 (p : T) (r : list T) : list T := nzero :: scale (nsub none_ p) r.
+Definition blk3 (q : T) (r : list T) : list T := scale (nsub none_ q) r ++ [nzero].
+Definition blk4 (q : T) (r : list T) : list T := nzero :: scale q r.
+Definition sum4 (a b c d : list T) : list T := vadd (vadd (vadd a b) c) d.
+Definition halve (r : list T) : list T := map (fun x => ndiv x ntwo) r.
 
-(* theta = p1+p2+p3+p4 for a smaller matrix m (rows m_0 .. m_k):
-   row 0 = up m_0 ; row i = up m_i + dn m_{i-1} (1<=i<=k, halved) ; row k+1 = dn m_k *)
-Fixpoint rw_mid (p q : Q) (prev : list Q) (rows : list (list Q)) : list (list Q) :=
+(* theta for a smaller matrix m (rows m_0 .. m_k, each of length k+1):
+   row 0 from m_0 only; row i from m_i and m_{i-1} (1<=i<=k, halved); row k+1 from m_k only *)
+Fixpoint rw_mid (p q : T) (prev : list T) (rows : list (list T)) : list (list T) :=
+  let z := zrow (S (length prev)) in
   match rows with
-  | [] => [row_dn q prev]
-  | r :: rest => halve (vadd (row_up p r) (row_dn q prev)) :: rw_mid p q r rest
+  | [] => [sum4 z z (blk3 q prev) (blk4 q prev)]
+  | r :: rest => halve (sum4 (blk1 p r) (blk2 p r) (blk3 q prev) (blk4 q prev)) :: rw_mid p q r rest
   end.
-Definition rw_step (p q : Q) (m : list (list Q)) : list (list Q) :=
+Definition rw_step (p q : T) (m : list (list T)) : list (list T) :=
   match m with
   | [] => []
-  | r0 :: rest => row_up p r0 :: rw_mid p q r0 rest
+  | r0 :: rest => let z := zrow (S (length r0)) in sum4 (blk1 p r0) (blk2 p r0) z z :: rw_mid p q r0 rest
   end.
 (* row_build_mat(k+2, p, q) *)
-Fixpoint rw_mat (k : nat) (p q : Q) : list (list Q) :=
+Fixpoint rw_mat (k : nat) (p q : T) : list (list T) :=
   match k with
-  | O => [[p; 1 - p]; [1 - q; q]]
+  | O => [[p; nsub none_ p]; [nsub none_ q; q]]
   | S k' => rw_step p q (rw_mat k' p q)
   end.
 
-(* np.linspace(a, b, n)[i] = a + i * ((b - a)/(n - 1)) *)
-Definition linspace (a b : Q) (n : nat) : list Q :=
-  map (fun i => Qred (a + natQ i * ((b - a) / natQ (n - 1)))) (seq 0 n).
+(* np.linspace(a, b, n): step = (b-a)/(n-1); y_i = i*step + a; the last entry is set to b *)
+Definition linspace (a b : T) (n : nat) : list T :=
+  let step := ndiv (nsub b a) (of_nat (n - 1)) in
+  map (fun i => if (i =? n - 1)%nat then b else nadd (nmul (of_nat i) step) a) (seq 0 n).
 
 (* rouwenhorst(n, rho, sigma, mu): psi = y_sd * sqrt(n-1) is an input (a square root); the theorems
    assume psi^2 = (n-1) sigma^2/(1-rho^2) where they need it.  None: n < 2 raises ValueError. *)
-Definition rouwenhorst (n : nat) (rho psi mu : Q) : option (list (list Q) * list Q) :=
+Definition rouwenhorst (n : nat) (rho psi mu : T) : option (list (list T) * list T) :=
   if (n <? 2)%nat then None
-  else let p := (1 + rho) / 2 in
+  else let p := ndiv (nadd none_ rho) ntwo in
+       let shift := ndiv mu (nsub none_ rho) in
        Some (rw_mat (n - 2) p p,
-             map (fun b => Qred (b + mu / (1 - rho))) (linspace (- psi) psi n)).
+             map (fun b => nadd b shift) (linspace (nsub nzero psi) psi n)).
+End Rouwenhorst.
+
+(* exact np.linspace over Q for the Tauchen grid *)
+Definition linspaceQ (a b : Q) (n : nat) : list Q := linspace a b n.
 
 (* ------------------------------------------------------------------ tauchen *)
 (* A cell of the transition matrix is Phi(up) - Phi(lo); an open end is None (Phi(-inf)=0, Phi(+inf)=1) *)
 Definition cell := (option Q * option Q)%type.          (* (lo, up) cdf arguments *)
 
 Definition tauchen_x (n : nat) (std_y : Q) (n_std : Q) : list Q :=
-  linspace (- (n_std * std_y)) (n_std * std_y) n.
+  linspaceQ (- (n_std * std_y)) (n_std * std_y) n.
 
 Definition tauchen_args (n : nat) (rho sigma std_y n_std : Q) : list (list cell) :=
   let x_max := n_std * std_y in
@@ -136,3 +155,12 @@ Definition fit_discrete_mc (orderF : bool) (grids : list (list Q)) (X : list (li
   let '(st, _, P) := estimate_mc (map (fun z => [inject_Z z]) ind) in
   let prod := cartesian 0 orderF grids in
   (map (fun s => nth (Z.to_nat (Qnum (getQ s 0))) prod []) st, P).
+
+(* ------------------------------------------------------------------ specification vocabulary
+   (plain exact sums used in the statements of the theorems; not part of the executable model) *)
+Fixpoint sum_list (l : list Q) : Q := match l with [] => 0 | x :: r => x + sum_list r end.
+Fixpoint dot (a b : list Q) : Q :=
+  match a, b with x :: a', y :: b' => x * y + dot a' b' | _, _ => 0 end.
+(* conditional mean / variance of next period's value given row r of the transition matrix *)
+Definition cmean (r y : list Q) : Q := dot r y.
+Definition cvar (r y : list Q) : Q := dot r (map (fun v => (v - cmean r y) * (v - cmean r y)) y).
